@@ -5,7 +5,7 @@ from vlib import *
 FILES = ['src/urcu-defer-impl.h', 'include/urcu/defer.h', 'src/urcu.c']
 TRUSTED = ['Coq 8.16.1 kernel; no axioms; no native_compute', 'extraction: ExtrOcamlBasic only; ocaml/defer_driver.ml',
            'harness/seqdiff/defer.c; hooks URCU_VERIF_DEFER_QUEUE_SIZE / URCU_VERIF_DEFER_CALL (guarded, add-only)',
-           'modelled: head/tail as unbounded counters (the 2^64 wrap of the free-running counters is not modelled); '
+           'modelled: head/tail as unbounded counters; DeferWrap.rep_enq shows that the machine-word ring takes the same steps, and the probe runs that start just below 2^64 compare the counters modulo 2^64; '
            'grace period = the real synchronize_rcu() of the memb flavor in the probe, abstract in the model; the reclaimer thread futex protocol is covered by the Futex/CrFutex.v skeleton']
 SRCS = [REPO + s for s in ('/src/wfcqueue.c', '/src/wfstack.c', '/src/compat_futex.c', '/src/compat_arch.c')]
 
@@ -13,6 +13,7 @@ def oracle_lines(lines):
     """exactly once / in order / exact arguments, on the implementation output alone"""
     queued, called = [], []
     for l in lines[1:]:
+        if l.startswith('START '): continue
         h, c = l.split('|')[0].split(), l.split('|')[1]
         if h and h[0] == 'E': queued.append((h[1], h[2]))
         called += re.findall(r'\((\w+),(\w+)\)', c)
@@ -34,6 +35,8 @@ def run(ctx):
         if rc: ctx.fail('harness', 'build of seqdiff/defer.c (size %s)' % tag, se[-800:]); continue
         nseq = (12 if ctx.quick() else 100) if sz else 2
         cmds = [[exe, str(300 if sz else 9000), str(ctx.seed * 1000 + i), str(i % 3 if sz else 1)] for i in range(nseq)]
+        if sz and sz <= 16:      # the free-running head / tail counters start just below 2^64: every run crosses the wrap-around (DeferWrap.rep_enq)
+            cmds += [[exe, '200', str(ctx.seed * 1000 + 500 + i), str(i % 3), str(2 ** 64 - k)] for i, k in enumerate((1, 2, 3, 5, 9, 17) if ctx.quick() else range(1, 40))]
         outs = run_many(cmds, timeout=120)
         for (rc, out), cmd in zip(outs, cmds):
             lines = out.splitlines()
